@@ -83,5 +83,27 @@ pub fn scenarios(tier: &str) -> Vec<Scenario> {
         network: "regtest".into(),
         traces: true,
     });
+    // ---- C01-pool-window: writes to the pending pool that are made for the block under construction
+    // without opening it (a parked / replaced signed transaction), at the window edge ----------------
+    let park = |name: &str, nonce: u64, v: u8| mac(name, Kind::Growth, vec![Step::Tx(TxSpec::Transact { signer: 0, nonce, tgt: Tgt::s(), data: crate::asm::s_set(1, v, 0, [0; 4]), len: DEFAULT_LEN })]);
+    let pool_alpha = vec![
+        m_block("B(T(s0,n1))", vec![TxSpec::Transact { signer: 0, nonce: 1, tgt: Tgt::s(), data: crate::asm::s_set(1, 3, 0, [0; 4]), len: DEFAULT_LEN }]),
+        park("park(s0,n1)'", 1, 9),
+        park("park(s0,n2)", 2, 5),
+        m_mine(1),
+        m_mine(W - 1),
+        m_commit(0),
+        m_reorg(1, RTarget::Back(1)), m_reorg(1, RTarget::Back(W - 1)), m_reorg(1, RTarget::Back(W)), m_reorg(1, RTarget::Back(W + 1)),
+    ];
+    v.push(Scenario {
+        name: "pool-window".into(),
+        opts: Opts::new("C01", "pool-window"),
+        starts: vec![("S deployed in block 1".to_string(), start_with_s())],
+        alphabet: pool_alpha,
+        bounds: Bounds { depth: if thorough { 6 } else { 4 }, dev: vec![1, 2], dev_total: 2 },
+        weight: if thorough { 4.0 } else { 2.0 },
+        network: "regtest".into(),
+        traces: true,
+    });
     v
 }
